@@ -1101,3 +1101,36 @@ Proof.
   - apply history_ok; [exact Hc|]. apply Forall_map. eapply Forall_impl; [|exact Ho].
     intros [t|spec]; simpl; [auto|]. intros (H1 & q' & b' & H2 & H3). rewrite H2. exact H3.
 Qed.
+
+(* ---------- request level ---------- *)
+Lemma req_run_tries : forall reqs r,
+  map fst (req_run r reqs) = rtb_tries r (map (fun p : rkind * Z => OTry (snd p)) reqs).
+Proof.
+  induction reqs as [|[k now] rest IH]; intros r; [reflexivity|].
+  cbn [req_run map rtb_tries snd]. unfold req_step. destruct (rtb_step r (OTry now)) as [r' ok].
+  cbn [map fst]. f_equal. apply IH.
+Qed.
+
+Lemma req_run_status : forall reqs r,
+  Forall (fun a : bool * Z => snd a = if fst a then 200 else 429) (req_run r reqs).
+Proof.
+  induction reqs as [|[k now] rest IH]; intros r; [constructor|].
+  cbn [req_run]. unfold req_step. destruct (rtb_step r (OTry now)) as [r' ok].
+  constructor; [destruct ok; reflexivity|apply IH].
+Qed.
+
+(* C06_request_kind_irrelevant: a request-level history (any mix of kinds) of a schema (qps, burst) is decided
+   like the TryAcquire trace with the same clock readings; hence one stretch that satisfies the three clauses,
+   and every request that is not admitted is answered 429 *)
+Lemma request_kind_irrelevant q b reqs : cfg_std {| qps := q; burst := b |} ->
+  Forall (fun p : rkind * Z => 0 <= snd p) reqs ->
+  let ops := map (fun p : rkind * Z => OTry (snd p)) reqs in
+  map fst (req_run (rtb_new q b) reqs) = try_decisions (model_tr (rtb_new q b) ops) /\
+  Forall (fun a : bool * Z => snd a = if fst a then 200 else 429) (req_run (rtb_new q b) reqs) /\
+  let segs := segments {| qps := q; burst := b |} [] (model_tr (rtb_new q b) ops) in
+  all_segments closed_ok segs = true /\ all_segments open_ok segs = true /\ all_segments lower_ok segs = true.
+Proof.
+  intros Hc Ht. cbn zeta. split; [rewrite req_run_tries; apply rtb_tries_model_tr|].
+  split; [apply req_run_status|].
+  apply history_ok; [exact Hc|]. apply Forall_map. eapply Forall_impl; [|exact Ht]. intros [k t]; simpl; auto.
+Qed.
